@@ -348,6 +348,21 @@ def work_refusal(bins, seed, n):
                 bad.append(("panic-in-binary", "%s: %s" % (desc, r["err"][:200]), case))
             elif r["exit"] == 0:
                 bad.append(("invalid-object-rendered", "%s: `zerv %s` rendered %r instead of rejecting it" % (desc, " ".join(argv[:6]), r["out"][:100]), case))
+    # malformed text handed over as --schema-ron (the other channel for "the schema in effect"): a complete schema followed by anything, or cut short
+    for _ in range(3):
+        sch = ron.schema_to_ron(objgen.rand_schema(rng, ascii_only=True))
+        for bad_text in (sch + ")", sch + " garbage", sch + " " + sch, sch + ' "abc', sch + " /* note", sch[:-1], "(" + sch, sch + ",", sch + "]", sch.replace("core", "c0re", 1), "", " "):
+            for argv in (["version", "--source", "none", "--tag-version", "1.2.3-rc.4", "--schema-ron", bad_text], ["flow", "--source", "none", "--tag-version", "1.2.3", "--schema-ron", bad_text],
+                         ["version", "--source", "none", "--tag-version", "1.2.3", "--schema-ron", bad_text, "--output-format", "zerv"]):
+                r = core.run_zerv(bins, argv, env=env)
+                st["structural_mutants"] += 1
+                if r["timeout"]:
+                    continue
+                case = dict(kind="structural", desc="malformed --schema-ron text", stdin=None, argv=argv)
+                if "panicked" in r["err"]:
+                    bad.append(("panic-in-binary", "malformed --schema-ron: %s" % r["err"][:200], case))
+                elif r["exit"] == 0:
+                    bad.append(("invalid-object-rendered", "--schema-ron %r is not a RON document, `zerv %s` rendered %r" % (bad_text[-40:], argv[0], r["out"][:80]), case))
     for _ in range(n):
         schema = objgen.rand_schema(rng, ascii_only=True)
         v = objgen.rand_vars(rng, ascii_only=True)
